@@ -523,7 +523,10 @@ def v1_configs(kind, tier):
         return [mk1("v1stop", [2, 1], {2: 1, 1: 2}, 3, "rate", 2, 1, 6, stop=True, graceful=True),
                 mk1("v1stopsilent", [2, 1], {2: 1, 1: 2}, 3, "rate", 2, 2, 8, stop=True, extra=dict(silent_after_stop=True)),
                 mk1("v1cancel", [3, 2, 1], {3: 1, 2: 2, 1: 3}, 4, "fair", 3, 1, 5, cancel=True, graceful=True, extra=dict(silent_after_stop=True)),
-                mk1("v1stopunbuf", [2, 1], {2: 1, 1: 2}, 3, "rate", 2, 1, 5, stop=True, cancel=True, unbuf=[2], outcap=1, fbcap=1)]
+                mk1("v1stopunbuf", [2, 1], {2: 1, 1: 2}, 3, "rate", 2, 1, 5, stop=True, cancel=True, unbuf=[2], outcap=1, fbcap=1),
+                # consumer not reading: the scheduler is blocked writing to the output when the stop / cancellation arrives
+                mk1("v1cancelnocons", [2, 1], {2: 1, 1: 2}, 3, "rate", 2, 2, 6, cancel=True, outcap=1, extra=dict(silent_after_stop=True, no_consumer=True)),
+                mk1("v1stopnocons", [3, 2, 1], {3: 1, 2: 2, 1: 3}, 4, "fair", 3, 1, 5, stop=True, outcap=2, extra=dict(silent_after_stop=True, no_consumer=True))]
     if kind == "dyn":
         return [mk1("v1dyn", [3, 2, 1], {2: 1, 1: 2}, 3, "fair", 4, 1, 5, graceful=True, adds=[[3, 3], [4, 1]], rmvs=[2]),
                 mk1("v1dynrate", [3, 2, 1], {3: 1, 2: 2}, 6, "rate", 4, 2, 6, graceful=True, adds=[[3, 1], [4, 2]], rmvs=[3, 1]),
